@@ -136,6 +136,10 @@ def run(ctx) -> int:
         else:
             src = docs.grammar_doc(rng)
         cases.append((cfg, APIS[k % 4] if k % 3 == 0 else "render", src, None))
+    # the hand-made corner documents, each under the two configurations that switch every rule on
+    for cd in docs.corner_docs():
+        for ci in (2, 4):
+            cases.append((configs.STANDARD[ci], "render", cd, None))
     n_corr, disagreements, kn, kbad, lines = pipecheck.correspond(cases, "c01")
 
     # the property on the implementation
